@@ -221,7 +221,9 @@ ExtrudeTriLineCells(m1, m2) ==
 
 CountsUsedNotStored(e) ==
   \/ /\ e.op = "to_meshtri_x" /\ TrailingStray(Pre(e))
-     /\ LET r == ToMeshTriCells(Pre(e), "x") IN Post(e).t = r.t /\ Post(e).p = r.p
+     /\ LET r == ToMeshTriCells(Pre(e), "x")
+            srt(tt) == [k \in DOMAIN tt |-> SortedSeq(VSet(tt[k]))]        \* MeshTri1 sorts the vertices of its cells
+        IN srt(Post(e).t) = srt(r.t) /\ Post(e).p = r.p
   \/ /\ e.op = "extrude" /\ Len(e.pre) = 2 /\ e.pre[1].kind = "tri" /\ e.pre[2].kind = "line" /\ TrailingStray(e.pre[1])
      /\ LET r == ExtrudeTriLineCells(e.pre[1], e.pre[2]) IN Post(e).t = r.t /\ Post(e).p = r.p
 
